@@ -1,7 +1,8 @@
 #!/usr/bin/env python3
 """Writes /verif/seeded/<name>/meta.json from the agent's meta + our confirmation log + check log."""
 import json, os, re, sys
-name, prop, needs = sys.argv[1], sys.argv[2], sys.argv[3]
+name, prop, needs = sys.argv[1], sys.argv[2], (sys.argv[3] if len(sys.argv) > 3 else "")
+note = sys.argv[4] if len(sys.argv) > 4 else ""
 d = os.path.join("/verif/seeded", name)
 agent = {}
 try:
@@ -20,12 +21,15 @@ meta = {
         "tests_pass_with_change": "100% tests passed" in conf,
         "demo_fails_with_change": bool(re.search(r"demo WITH change exit=[1-9]", conf)),
         "demo_passes_without_change": "demo WITHOUT change exit=0" in conf,
-        "how": "tools/eval_seeded.sh: scratch build of the agent's worktree + ctest; demo.cpp linked against the changed and the unchanged library",
+        "how": "tools/eval_seeded%s.sh: scratch worktree HEAD + patch.diff, build + ctest; demo.cpp linked against the changed and the unchanged library" % ("2" if "HEAD + patch.diff" in conf else ""),
     },
-    "check_run": {"cmd": f"git -C /repo apply seeded/{name}/patch.diff; bin/check {prop} --tier quick; git -C /repo checkout -- .",
+    "check_run": {"cmd": (f"VERIF_REPO=<scratch worktree of /repo HEAD + seeded/{name}/patch.diff> VERIF_OUT=<scratch> bin/check {prop} --tier quick" if "HEAD + patch.diff" in conf
+                          else f"git -C /repo apply seeded/{name}/patch.diff; bin/check {prop} --tier quick; git -C /repo checkout -- ."),
                   "detected": "VIOLATION property=" in chk,
                   "failed_obligations": [f"{a}: {b}" for a, b in vio][:8],
                   "natively_replayed": "VIOLATION property=" in chk and "no-failing-input-found" not in chk.split("VIOLATION property=")[1].split("\n")[0]},
 }
+if note:
+    meta["note"] = note
 json.dump(meta, open(os.path.join(d, "meta.json"), "w"), indent=1)
 print(name, "detected" if meta["check_run"]["detected"] else "MISSED", meta["confirmed_by_us"])
